@@ -417,6 +417,11 @@ pub mod spec {
             })
     }
 
+    /// every ledger entry is as present in `x` as in `y`
+    pub open spec fn same_presence(x: State, y: State) -> bool {
+        x.item_state.len() == y.item_state.len() && forall|i: int| 0 <= i < x.item_state.len() ==> present(#[trigger] x.item_state[i]) == present(y.item_state[i])
+    }
+
     pub open spec fn res_err<T>(r: Result<T, Error>) -> Option<Error> {
         match r { Ok(_) => None, Err(e) => Some(e) }
     }
@@ -464,6 +469,8 @@ pub mod lemmas {
     use super::real::*;
     use super::spec::*;
 
+//@@ lemma
+//@@ unit lemmas.ledger_helpers tags=C01,C02,C03,C04,C05,C06,C07,C08,C09,C10,C11,C12,C14,C18,C19,C20
     pub broadcast proof fn lemma_count_update(l: Seq<ItemState>, lo: int, hi: int, i: int, v: ItemState)
         requires 0 <= i < l.len(),
         ensures #[trigger] count_present(l.update(i, v), lo, hi)
@@ -525,6 +532,7 @@ pub mod lemmas {
         lemma_count_presence(w.item_state@, out.item_state@, w.scope.start as int, w.scope.end as int);
     }
 
+//@@ end
     pub broadcast group ledger {
         lemma_count_update,
         lemma_count_witness,
@@ -1690,6 +1698,8 @@ proof { assert(exists|a: &mut State| *a == g_pre && *final(a) == g_mid && #[trig
 //@@ end
 
 }
+
+//@@ include lemmas.rs.tpl
 
 } // verus!
 fn main() {}
